@@ -27,6 +27,9 @@ M = {
  "idempotency-ignores-in-flight": ("happysimulator/components/microservice/idempotency_store.py",
    "        if key in self._in_flight:\n",
    "        if False and key in self._in_flight:\n"),
+ "session-merge-drops-records": ("happysimulator/components/streaming/stream_processor.py",
+   "                last.end = max(last.end, w.end)\n                last.records.extend(w.records)\n",
+   "                last.end = max(last.end, w.end)\n"),
 }
 path, old, new = M[name]
 p = f"{root}/{path}"
